@@ -45,6 +45,9 @@ class Ctx(object):
         self.assumptions = []
         self.tlc_runs = []
         self.findings = load_findings(pid)
+        self.by_class = {}
+        self.nfiles = 0
+        self.last_path = None
         self.t0 = time.time()
 
     # ---- TLC
@@ -79,15 +82,19 @@ class Ctx(object):
                 if f not in [k[0] for k in self.known]:
                     self.known.append((f, signature))
                 return 'known'
+        cls = str(signature.get('class') or signature.get('aspect') or 'unclassified')
+        self.by_class[cls] = self.by_class.get(cls, 0) + 1
         k = len(self.violations)
-        if k < 25:
+        if self.by_class[cls] <= 4 and self.nfiles < 40:
             os.makedirs(os.path.join(VERIF, 'replay'), exist_ok=True)
-            path = os.path.join(VERIF, 'replay', '%s-%d.json' % (self.pid, k))
+            path = os.path.join(VERIF, 'replay', '%s-%d.json' % (self.pid, self.nfiles))
+            self.nfiles += 1
+            self.last_path = path
             with open(path, 'w') as fh:
                 json.dump({'property': self.pid, 'signature': signature, 'what': what, 'detail': detail,
                            'tier': self.tier, 'seed': self.seed}, fh, indent=1, default=str, sort_keys=True)
         else:
-            path = os.path.join(VERIF, 'replay', '%s-%d.json' % (self.pid, 24))
+            path = self.last_path
         self.violations.append((signature, what, path))
         return 'violation'
 
@@ -118,6 +125,7 @@ def write_evidence(ctx, level='model_checking'):
         'tlc_runs': ctx.tlc_runs,
         'drift': ctx.drift,
         'known_findings_seen': [f['what'] for f, _ in ctx.known],
+        'violations_by_class': ctx.by_class,
     }
     cov.update(ctx.extra)
     ev = {
@@ -164,6 +172,7 @@ def main(argv=None):
             print('  ' + what)
         if ctx.violations:
             rc = 1
+            print('violations by class: %s' % ctx.by_class)
         print('%s %s: states=%d transitions=%d impl_traces=%d evaluations=%d violations=%d wall=%.1fs' % (
             pid, a.tier, ctx.states, ctx.transitions, ctx.traces_validated, ctx.evaluations,
             len(ctx.violations), time.time() - ctx.t0))
